@@ -246,6 +246,46 @@ func checkC13(p *Program, r *Reporter) {
 	}
 	r.Decide(emsgScheme != "" && emsgScheme == mpdScheme, "E5-INBAND", shortFn(cea), "scheme-agreement", p.pos(cea.Pos()), "both sides use "+emsgScheme,
 		fmt.Sprintf("the MPD announces scheme %q but the events carry %q", mpdScheme, emsgScheme), nil)
+	// (c2) the low-latency path rebuilds the fragments from samples: the events of the source segment
+	// must be handed over to a chunk, or the event is lost exactly when the segment is delivered in chunks
+	r.Rule("E5-CHUNKEVENTS", "the chunked delivery path carries the event boxes of the generated segment over to a chunk", 1)
+	if cs := p.mustFunc(r, pkgApp, "chunkSegment"); cs != nil {
+		var segPrm *ssa.Parameter
+		for _, prm := range cs.Params {
+			if strings.HasSuffix(prm.Type().String(), "mp4.MediaSegment") {
+				segPrm = prm
+			}
+		}
+		carried := 0
+		var at token.Pos = cs.Pos()
+		for _, fn := range cluster(cs) {
+			for _, b := range fn.Blocks {
+				for _, in := range b.Instrs {
+					c, ok := in.(*ssa.Call)
+					if !ok || c.Call.StaticCallee() == nil {
+						continue
+					}
+					callee := c.Call.StaticCallee()
+					if !(callee.Name() == "AddEmsg" || callee.Name() == "AddChild") || !strings.Contains(callee.String(), "mp4.Fragment)") || len(c.Call.Args) < 2 {
+						continue
+					}
+					arg := c.Call.Args[1]
+					if mi, ok := arg.(*ssa.MakeInterface); ok {
+						arg = mi.X
+					}
+					if !strings.HasSuffix(arg.Type().String(), "mp4.EmsgBox") {
+						continue
+					}
+					if segPrm != nil && localDependsOnParam(p, arg, segPrm) {
+						carried++
+						at = c.Pos()
+					}
+				}
+			}
+		}
+		r.Decide(carried > 0, "E5-CHUNKEVENTS", shortFn(cs), "emsg-carried-over", p.pos(at), "an event box taken from the source segment is added to a chunk fragment",
+			"chunkSegment builds the chunks from the samples only: emsg boxes (SCTE-35 events) attached to the generated segment are dropped in low-latency mode", nil)
+	}
 	// (d) purity and divisions
 	r.Rule("E2-PURE", "pkg/scte35 keeps no state between calls", 3)
 	packagePurity(p, r, "E2-PURE", pkgScte)
